@@ -1200,3 +1200,344 @@ let getitem keq name sigs idx =
           sigs with
   | Some s -> IFound s
   | None -> IKeyError
+
+type pkind =
+| KPosOnly
+| KPosKw
+| KKwOnly
+
+(** val is_kwonly : pkind -> bool **)
+
+let is_kwonly = function
+| KKwOnly -> true
+| _ -> false
+
+(** val is_posonly : pkind -> bool **)
+
+let is_posonly = function
+| KPosOnly -> true
+| _ -> false
+
+type plan = { pl_ft : nat; pl_idx : nat; pl_name : nat; pl_kind : pkind;
+              pl_def : nat option }
+
+type 'v param = { p_name : nat; p_kind : pkind; p_fused : nat option;
+                  p_default : 'v option }
+
+type 'v fsig = { s_params : 'v param list; s_star : bool; s_kw : bool }
+
+(** val has_default : 'a1 param -> bool **)
+
+let has_default p =
+  match p.p_default with
+  | Some _ -> true
+  | None -> false
+
+(** val defaults_tuple : 'a1 param list -> 'a1 list **)
+
+let defaults_tuple ps =
+  flat_map (fun p -> match p.p_default with
+                     | Some v -> v :: []
+                     | None -> []) ps
+
+(** val plans_from :
+    bool -> 'a1 param list -> nat -> nat -> nat list -> plan list **)
+
+let rec plans_from count_all ps i didx seen =
+  match ps with
+  | [] -> []
+  | p :: tl ->
+    let relevant =
+      match p.p_fused with
+      | Some ft -> negb (existsb (Nat.eqb ft) seen)
+      | None -> false
+    in
+    let didx' =
+      if (&&) (has_default p) ((||) count_all relevant) then S didx else didx
+    in
+    (match p.p_fused with
+     | Some ft ->
+       if relevant
+       then { pl_ft = ft; pl_idx = i; pl_name = p.p_name; pl_kind = p.p_kind;
+              pl_def =
+              (if has_default p then Some didx else None) } :: (plans_from
+                                                                 count_all tl
+                                                                 (S i) didx'
+                                                                 (ft :: seen))
+       else plans_from count_all tl (S i) didx' seen
+     | None -> plans_from count_all tl (S i) didx' seen)
+
+(** val plans : bool -> 'a1 fsig -> plan list **)
+
+let plans count_all s =
+  plans_from count_all s.s_params O O []
+
+(** val lookup : nat -> (nat * 'a1) list -> 'a1 option **)
+
+let rec lookup n0 = function
+| [] -> None
+| p :: r -> let (k, v) = p in if Nat.eqb k n0 then Some v else lookup n0 r
+
+type 'v fetched =
+| FVal of 'v
+| FMissing
+| FBadIndex
+
+(** val run_plan :
+    bool -> plan -> 'a1 list -> (nat * 'a1) list -> 'a1 list -> 'a1 fetched **)
+
+let run_plan kinds_fix pl args kwargs dt =
+  let from_pos =
+    if (&&) kinds_fix (is_kwonly pl.pl_kind)
+    then None
+    else nth_error args pl.pl_idx
+  in
+  (match from_pos with
+   | Some v -> FVal v
+   | None ->
+     let from_kw =
+       if (&&) kinds_fix (is_posonly pl.pl_kind)
+       then None
+       else lookup pl.pl_name kwargs
+     in
+     (match from_kw with
+      | Some v -> FVal v
+      | None ->
+        (match pl.pl_def with
+         | Some k ->
+           (match nth_error dt k with
+            | Some v -> FVal v
+            | None -> FBadIndex)
+         | None -> FMissing)))
+
+type 'v fres =
+| Fetched of 'v list
+| FetchMissing
+| FetchBadIndex
+
+(** val fetch_all :
+    bool -> plan list -> 'a1 list -> (nat * 'a1) list -> 'a1 list -> 'a1 fres **)
+
+let rec fetch_all kinds_fix pls args kwargs dt =
+  match pls with
+  | [] -> Fetched []
+  | pl :: tl ->
+    (match run_plan kinds_fix pl args kwargs dt with
+     | FVal v ->
+       (match fetch_all kinds_fix tl args kwargs dt with
+        | Fetched vs -> Fetched (v :: vs)
+        | x -> x)
+     | FMissing -> FetchMissing
+     | FBadIndex -> FetchBadIndex)
+
+(** val positional : 'a1 param -> bool **)
+
+let positional p =
+  negb (is_kwonly p.p_kind)
+
+(** val npos : 'a1 param list -> nat **)
+
+let npos ps =
+  length (filter positional ps)
+
+(** val accepts_kw : 'a1 param list -> nat -> bool **)
+
+let accepts_kw ps n0 =
+  existsb (fun p -> (&&) (Nat.eqb p.p_name n0) (negb (is_posonly p.p_kind)))
+    ps
+
+(** val in_kw : nat -> (nat * 'a1) list -> bool **)
+
+let in_kw n0 kw =
+  match lookup n0 kw with
+  | Some _ -> true
+  | None -> false
+
+(** val bind_one :
+    'a1 list -> (nat * 'a1) list -> nat -> 'a1 param -> 'a1 option **)
+
+let bind_one args kwargs i p =
+  match p.p_kind with
+  | KPosOnly ->
+    (match nth_error args i with
+     | Some v -> Some v
+     | None -> p.p_default)
+  | KPosKw ->
+    (match nth_error args i with
+     | Some v -> if in_kw p.p_name kwargs then None else Some v
+     | None ->
+       (match lookup p.p_name kwargs with
+        | Some v -> Some v
+        | None -> p.p_default))
+  | KKwOnly ->
+    (match lookup p.p_name kwargs with
+     | Some v -> Some v
+     | None -> p.p_default)
+
+(** val bind_from :
+    'a1 list -> (nat * 'a1) list -> nat -> 'a1 param list -> 'a1 list option **)
+
+let rec bind_from args kwargs i = function
+| [] -> Some []
+| p :: tl ->
+  (match bind_one args kwargs i p with
+   | Some v ->
+     (match bind_from args kwargs (S i) tl with
+      | Some vs -> Some (v :: vs)
+      | None -> None)
+   | None -> None)
+
+(** val bind_py :
+    'a1 fsig -> 'a1 list -> (nat * 'a1) list -> 'a1 list option **)
+
+let bind_py s args kwargs =
+  if (&&) (negb s.s_star) (Nat.ltb (npos s.s_params) (length args))
+  then None
+  else if (&&) (negb s.s_kw)
+            (existsb (fun kv -> negb (accepts_kw s.s_params (fst kv))) kwargs)
+       then None
+       else bind_from args kwargs O s.s_params
+
+(** val kinds_sorted : 'a1 param list -> bool **)
+
+let rec kinds_sorted = function
+| [] -> true
+| p :: tl ->
+  (&&)
+    (if is_kwonly p.p_kind
+     then forallb (fun q -> is_kwonly q.p_kind) tl
+     else true) (kinds_sorted tl)
+
+(** val nodupb : nat list -> bool **)
+
+let rec nodupb = function
+| [] -> true
+| x :: r -> (&&) (negb (existsb (Nat.eqb x) r)) (nodupb r)
+
+(** val wf_sig : 'a1 fsig -> bool **)
+
+let wf_sig s =
+  (&&) (kinds_sorted s.s_params) (nodupb (map (fun p -> p.p_name) s.s_params))
+
+(** val hazard_free : plan -> 'a1 list -> (nat * 'a1) list -> bool **)
+
+let hazard_free pl args kwargs =
+  match pl.pl_kind with
+  | KPosOnly ->
+    (||) (Nat.ltb pl.pl_idx (length args)) (negb (in_kw pl.pl_name kwargs))
+  | KPosKw -> true
+  | KKwOnly -> Nat.leb (length args) pl.pl_idx
+
+(** val select : ctype list list -> ctype option list -> dres **)
+
+let select mss ds = match ds with
+| [] ->
+  (match filter (fun s -> sig_match s ds) (all_sigs mss) with
+   | [] -> NoMatch
+   | s :: l -> (match l with
+                | [] -> Spec s
+                | _ :: _ -> Ambiguous))
+| one :: l ->
+  (match l with
+   | [] -> (match one with
+            | Some t -> Spec (t :: [])
+            | None -> NoMatch)
+   | _ :: _ ->
+     (match filter (fun s -> sig_match s ds) (all_sigs mss) with
+      | [] -> NoMatch
+      | s :: l0 -> (match l0 with
+                    | [] -> Spec s
+                    | _ :: _ -> Ambiguous)))
+
+(** val fparams : 'a1 param list -> nat list **)
+
+let fparams ps =
+  flat_map (fun p -> match p.p_fused with
+                     | Some ft -> ft :: []
+                     | None -> []) ps
+
+(** val fused_vals :
+    ('a1 -> atag) -> 'a1 param list -> 'a1 list -> atag list **)
+
+let rec fused_vals tag_of ps vals =
+  match ps with
+  | [] -> []
+  | p :: ps' ->
+    (match vals with
+     | [] -> []
+     | v :: vals' ->
+       (match p.p_fused with
+        | Some _ -> (tag_of v) :: (fused_vals tag_of ps' vals')
+        | None -> fused_vals tag_of ps' vals'))
+
+(** val ft_pos : plan list -> nat -> nat **)
+
+let rec ft_pos pls ft =
+  match pls with
+  | [] -> O
+  | pl :: tl -> if Nat.eqb pl.pl_ft ft then O else S (ft_pos tl ft)
+
+(** val members_of : ctype list list -> plan -> ctype list **)
+
+let members_of mss pl =
+  nth pl.pl_ft mss []
+
+(** val decl_of : ctype list list -> 'a1 fsig -> decl **)
+
+let decl_of mss s =
+  let pls = plans true s in
+  { ftypes =
+  (map (fun pl -> { members = (members_of mss pl); fpos =
+    (length (fparams (firstn pl.pl_idx s.s_params))) }) pls); params =
+  (map (ft_pos pls) (fparams s.s_params)) }
+
+(** val call2_cy :
+    ('a1 -> atag) -> bool -> bool -> bool -> (tclass -> bool) -> ctype list
+    list -> 'a1 fsig -> 'a1 list -> (nat * 'a1) list -> outcome **)
+
+let call2_cy tag_of count_all kinds_fix fastfix idlt mss s args kwargs =
+  let pls = plans count_all s in
+  (match fetch_all kinds_fix pls args kwargs (defaults_tuple s.s_params) with
+   | Fetched vs ->
+     let ds =
+       map (fun pv ->
+         map_fused fastfix idlt (members_of mss (fst pv)) (tag_of (snd pv)))
+         (combine pls vs)
+     in
+     (match select (map (members_of mss) pls) ds with
+      | Spec sg ->
+        (match bind_py s args kwargs with
+         | Some vals ->
+           (match conv_all sg (map (ft_pos pls) (fparams s.s_params))
+                    (fused_vals tag_of s.s_params vals) with
+            | COk -> Ran sg
+            | CTypeError -> TypeErr
+            | CValueError -> ValueErr)
+         | None -> TypeErr)
+      | BadCall -> BadArgs
+      | _ -> TypeErr)
+   | FetchMissing -> TypeErr
+   | FetchBadIndex -> BadArgs)
+
+(** val doc_call2 :
+    ('a1 -> atag) -> ctype list list -> 'a1 fsig -> 'a1 list -> (nat * 'a1)
+    list -> outcome **)
+
+let doc_call2 tag_of mss s args kwargs =
+  match bind_py s args kwargs with
+  | Some vals -> doc_call (decl_of mss s) (fused_vals tag_of s.s_params vals)
+  | None -> TypeErr
+
+(** val call_index :
+    ('a1 -> atag) -> 'a1 fsig -> ctype list -> 'a1 list -> (nat * 'a1) list
+    -> outcome **)
+
+let call_index tag_of s sg args kwargs =
+  match bind_py s args kwargs with
+  | Some vals ->
+    (match conv_all sg (map (ft_pos (plans true s)) (fparams s.s_params))
+             (fused_vals tag_of s.s_params vals) with
+     | COk -> Ran sg
+     | CTypeError -> TypeErr
+     | CValueError -> ValueErr)
+  | None -> TypeErr
